@@ -508,11 +508,16 @@ def _step(ctx, g, w, coll, loaders, tracker, op, budget_mode, faulty_pkgs, all_p
                     ctx.fail("I1-resolve-raised", f"second resolve_aliases({kw}) raised {type(e).__name__}: {w.norm(str(e))[:200]}", exc=e, tags=_exc_tags(e, tracker))
                     return False
                 after = _digest(coll)
-                if unresolved2 != unresolved:
+                if unresolved2 != unresolved and after == before:
                     ctx.fail("I4-fixpoint", f"resolve_aliases({kw}) again: unresolved set changed: {sorted(unresolved ^ unresolved2)[:5]}")
                     return False
                 if after != before:
-                    ctx.fail("I4-fixpoint", f"resolve_aliases({kw}) again changed the tree: {_digest_diff(before, after)}")
+                    # a wildcard placeholder that only the second call could expand (its module path goes through an
+                    # alias that the first call resolved after its last expansion pass) is a recorded finding
+                    pending_before = {a[0] for a in before[0] if a[0].endswith("/*")}
+                    pending_after = {a[0] for a in after[0] if a[0].endswith("/*")}
+                    tags = ["pending-wildcard-expanded-by-second-call"] if pending_before - pending_after and before[1] == after[1] else []
+                    ctx.fail("I4-fixpoint", f"resolve_aliases({kw}) again changed the tree: {_digest_diff(before, after)}", tags=tags)
                     return False
         elif kind == "deref":
             aliases = _aliases(coll)
